@@ -212,7 +212,8 @@ def check_against_model(shard, obs, tbs, m):
         if not tm.decodable(tb.s0, tb.s1):
             shard.inc('observed:undecodable_bit_sequences')
             continue
-        if i + 1 < len(tbs) and tbs[i + 1].has_zero_seq() and not tbs[i + 1].pulses:
+        nxt = next((x for x in tbs[i + 1:] if x.pulses or x.data), None)
+        if nxt is not None and nxt.has_zero_seq() and not nxt.pulses:
             # the next block may begin with a zero-length pulse, which lengthens this block's last pulse
             shard.inc('observed:last_pulse_may_be_lengthened_by_next_block')
             continue
